@@ -48,6 +48,41 @@ type c04rsChunk struct {
 	plen   int
 	orig   [][]byte
 	killed bool // the generator took it below n intact pieces on purpose
+	// line 94: what the previous step left behind (intact named pieces, named host list)
+	seen      bool
+	prevGood  int
+	prevHosts []int
+}
+
+// step kinds of line 94 (kind 5 = reconstruction: the only kind that may change the named host list)
+var c04rsStepKind = map[string]int64{"newchunk": 0, "corrupt": 1, "delete": 2, "restart": 3, "leaderchange": 4, "reconstruction": 5, "gc": 6}
+
+// line 94: one step as the run-level theorem c04_rs_no_loss_run sees it
+func (w *c04rsWorld) stepLine(c *c04rsChunk, after string, hs []int, good int) {
+	kind, ok := c04rsStepKind[after]
+	if !ok {
+		kind = 9
+	}
+	if c.seen {
+		changed := int64(0)
+		if len(hs) != len(c.prevHosts) {
+			changed = 1
+		} else {
+			for i := range hs {
+				if hs[i] != c.prevHosts[i] {
+					changed = 1
+				}
+			}
+		}
+		fault := int64(0)
+		if after == "corrupt" || after == "delete" {
+			fault = 1
+		}
+		w.line([]int64{94, kind, int64(c.n), int64(c.m), int64(c.prevGood), int64(good), changed, fault}, []int64{777, 1})
+	}
+	c.seen = true
+	c.prevGood = good
+	c.prevHosts = append([]int(nil), hs...)
 }
 
 func (c *c04rsChunk) piece(i int) core.TractID { return c.id.Add(i).ToTractID() }
@@ -335,6 +370,7 @@ func (w *c04rsWorld) check(after string) {
 			}
 			good++
 		}
+		w.stepLine(c, after, hs, good)
 		if good < c.n {
 			if !c.killed {
 				c.killed = true
